@@ -127,6 +127,10 @@ def curated():
     a(make('var_al_then_low', [P('p', 'u32', 4), P('v', 'u8'), P('p', 'u32')], 'none'))
     a(make('var_al8_then_low', [P('p', 'sz', 8), P('v', 'u16'), P('p', 'u64')], 'ae'))
     a(make('var_two_then_low', [P('p', 'u8'), P('v', 'u8'), P('p', 'u16', 4), P('v', 'f64'), P('p', 'i32'), P('p', 'i32')], 'noned'))
+    # a second VaryingSize with AlignAs behind an unaligned count that follows a low-aligned payload: the padding in front
+    # of the aligned payload is a run-time residue
+    a(make('var_two_low_al', [P('p', 'u32'), P('v', 'u8'), P('p', 'u32'), P('v', 'u16', 4)], 'none'))
+    a(make('var_two_low_al8', [P('p', 'u16'), P('v', 'u8'), P('p', 'u16'), P('v', 'f64', 8), P('p', 'u8')], 'alld'))
     a(make('var_then_plain_al', [P('p', 'u16'), P('v', 'u16'), P('p', 'u32'), P('p', 'u32', 4), P('p', 'u8')], 'none'))
     # mixed
     a(make('mix_al', [P('f', 'f32', 16), P('p', 'u32'), P('p', 'u8', 8), P('v', 'u16', 8), P('p', 'ch')], 'ae'))
@@ -206,6 +210,65 @@ def generated(seed, n):
     return out
 
 
+def layout_generated(seed, n):
+    """Seeded parameter lists biased towards the shapes the compile-time alignment reasoning has to get right: two
+    VaryingSize parameters with unaligned counts between them, aligned payloads behind low-aligned ones, trailing plain or
+    FixedSize parameters, FixedSize runs of different element sizes. Trivial integral/floating types only; used by the
+    layout properties C02-C05 (both tiers)."""
+    out = []
+    i = 0
+    types = ['u8', 'u16', 'u32', 'u64', 'f32', 'f64', 'by']
+    counts = ['u8', 'u16', 'u32', 'sz']
+    aligns = [0, 0, 0, 2, 4, 8, 16]
+    while len(out) < n:
+        h = hashlib.sha256(('layout:%d:%d' % (seed, i)).encode()).digest()
+        i += 1
+        r = _Rng(h)
+
+        def any_param(kind):
+            return P(kind, types[r.below(len(types))], aligns[r.below(len(aligns))])
+
+        def varying():
+            ct = counts[r.below(len(counts))]
+            ca = aligns[r.below(len(aligns))]
+            if ct == 'sz' and ca and ca < 8:
+                ca = 8
+            return [P('p', ct, ca), any_param('v')]
+
+        family = r.below(4)
+        params = []
+        if family == 0:      # two VaryingSize, optional plain parameters between and behind
+            params += varying()
+            if r.below(2):
+                params.append(any_param('p'))
+            params += varying()
+            for _ in range(r.below(3)):
+                params.append(any_param('p'))
+        elif family == 1:    # FixedSize runs of different element sizes
+            for _ in range(2 + r.below(3)):
+                params.append(any_param('f' if r.below(3) else 'p'))
+        elif family == 2:    # mixed: FixedSize in front of and behind a VaryingSize
+            params.append(any_param('f'))
+            if r.below(2):
+                params.append(any_param('p'))
+            params += varying()
+            params.append(any_param('f' if r.below(2) else 'p'))
+            if r.below(2):
+                params.append(any_param('p'))
+        else:                # one VaryingSize with a tail of plain parameters
+            if r.below(2):
+                params.append(any_param('p'))
+            params += varying()
+            for _ in range(1 + r.below(3)):
+                params.append(any_param('p'))
+        if not any(p[2] for p in params):
+            params[-1] = P(params[-1][0], params[-1][1], [2, 4, 8, 16][r.below(4)])
+        traits = ['ae', 'none', 'noned'][r.below(3)]
+        name = 'ly%03d_%s' % (len(out), hashlib.sha256(repr(params).encode()).hexdigest()[:6])
+        out.append(make(name, params, traits, ['layout', 'generated']))
+    return out
+
+
 class _Rng:
     def __init__(self, digest):
         self.s = int.from_bytes(digest[:8], 'little') | 1
@@ -223,6 +286,6 @@ def header_text(cfg):
 
 if __name__ == '__main__':
     import sys
-    cs = curated() + (generated(int(sys.argv[1]), int(sys.argv[2])) if len(sys.argv) > 2 else [])
+    cs = curated() + (generated(int(sys.argv[1]), int(sys.argv[2])) + layout_generated(int(sys.argv[1]), 24) if len(sys.argv) > 2 else [])
     for c in cs:
         print(c['name'], '|', c['params'], '|', c['traits'], '|', ' '.join(c['tags']))
